@@ -50,10 +50,12 @@ def text_form(v):
     if isinstance(v, float):
         r = repr(v)
         digits = r.replace('-', '').replace('.', '')
+        if v == v and abs(v) < 1e15 and v == int(v):
+            return str(int(v))        # Excel has one number type: 7.0 is "7"
         if (v != v or v in (float('inf'), float('-inf')) or 'e' in r
-                or v == int(v) or len(digits.lstrip('0')) > 15):
-            # 7.0 is "7" in Excel and "7.0" in Python; 1e+20, 0.1+0.2 ...:
-            # the spelling is a coercion question (C08), not a text question
+                or len(digits.lstrip('0')) > 15):
+            # 1e+20, 0.1+0.2 ...: the spelling is a coercion question (C08),
+            # not a text question
             raise Unjudged('number-spelling-ambiguous')
         return r
     if isinstance(v, str):
@@ -335,7 +337,8 @@ def selftest():
     assert text_form(True) == 'TRUE' and text_form(False) == 'FALSE'
     assert text_form(7) == '7' and text_form(-2) == '-2' and \
         text_form(1.5) == '1.5' and text_form(0) == '0'
-    for bad in (7.0, 1e20, 0.1 + 0.2):
+    assert text_form(7.0) == '7' and text_form(-3.0) == '-3'
+    for bad in (1e20, 0.1 + 0.2):
         try:
             text_form(bad)
         except Unjudged:
